@@ -16,7 +16,7 @@ def run(rep, tier, seed):
         conf = confs[i % len(confs)] if i % 3 else confs[rng.below(4)]     # tiny volumes over-represented
         if tier == "quick" and ((conf[0].startswith("fat32") and i > 22) or (conf[0].startswith("fat16") and i > 44)):
             conf = confs[rng.below(7)]
-        scripts.append(sessions.gen_session(rng, conf, nops))
+        scripts.append(sessions.gen_session(rng, conf, nops, file_io=True) + ["drop_all", "list 0", "unmount"])
     judged = sessions.run_judged(scripts, flags=("wf", "tree"), shards=16)
     checked_states = 0
     for jd in judged:
